@@ -445,22 +445,22 @@ func (r *Reader) readReflect(v interface{}) error {
 			return err
 		}
 
-		// 创建切片并读取每个元素
-		slice := reflect.MakeSlice(rv.Type(), int(length), int(length))
+		// 线路上的长度不可信：预分配容量受剩余字节数与固定上限约束，其余按需增长，
+		// 避免几个字节的输入触发与其不成比例的内存分配
+		capHint := int(length)
+		if remaining := len(r.buf) - r.pos; capHint > remaining {
+			capHint = remaining
+		}
+		if capHint > 1024 {
+			capHint = 1024
+		}
+		slice := reflect.MakeSlice(rv.Type(), 0, capHint)
 		for i := 0; i < int(length); i++ {
-			elem := slice.Index(i)
-			if elem.CanAddr() {
-				if err := r.Read(elem.Addr().Interface()); err != nil {
-					return err
-				}
-			} else {
-				// 对于不可寻址的元素，创建临时变量
-				elemPtr := reflect.New(rv.Type().Elem())
-				if err := r.Read(elemPtr.Interface()); err != nil {
-					return err
-				}
-				elem.Set(elemPtr.Elem())
+			elemPtr := reflect.New(rv.Type().Elem())
+			if err := r.Read(elemPtr.Interface()); err != nil {
+				return err
 			}
+			slice = reflect.Append(slice, elemPtr.Elem())
 		}
 		rv.Set(slice)
 		return nil
